@@ -662,11 +662,16 @@ func ArrayTyped[T any, R any](items []any, args ...any) *ZodArray[T, R] {
 	}
 
 	for _, arg := range args {
-		if v, ok := arg.(core.SchemaParams); ok {
+		switch v := arg.(type) {
+		case core.SchemaParams, *core.SchemaParams, string, core.ZodErrorMap, *core.ZodErrorMap, func(core.ZodRawIssue) string:
+			// the forms every other constructor accepts (utils.NormalizeParams),
+			// including the message shorthand Array(item, "must be a pair")
 			param = v
-		} else if rest == nil {
-			if schema, ok := arg.(core.ZodSchema); ok {
-				rest = schema
+		default:
+			if rest == nil {
+				if schema, ok := arg.(core.ZodSchema); ok {
+					rest = schema
+				}
 			}
 		}
 	}
